@@ -44,7 +44,7 @@ fn tails(alpha: &[Pkt]) -> Vec<(String, Vec<u8>)> {
 
 pub fn run(tier: Tier) -> i32 {
     let rep = Report::new("C10", tier);
-    rep.set_rule("(1) lemma: for every receiver state of the C08 closure (1 slot: closure; 2 slots: depth 7, thorough closure) x every lemma packet of the 46-packet alphabet (valid packets and those rejected for bad CRC / unknown id / no storage / unknown mandatory extension / unresolvable re-use / oversize) x every tail (1..4 zero bytes, every alphabet packet, FF*8, extension-like bytes, zero label, one byte): decap(q||t) equals decap(q) in outcome, consumed length = |q| and successor snapshot; (2) 2..=6 zero bytes give Padding consuming all in every state; (3) all frames of <= 3 (thorough 4) packets drawn from two real fragment trains continuing across frames plus complete packets and rejected packets, followed by 0..=5 zero bytes, are walked by consumed lengths and compared with stand-alone decapsulation; (4) every packet of the corpus is checked not to read as padding; (5) frames of 4097..70000 bytes, and every frame size 24..=64 with short PDUs, filled greedily by the real encapsulator (encap, and encap_ext for every second PDU; consecutive PDUs share their label, so re-use labels occur) with PDUs around and above the 4095-byte limit (fragments continuing across frames), walked by consumed lengths against a twin receiver fed each packet alone, every PDU delivered once in order; (6) every continuation packet the sender emits for PDUs of 0..=24 (thorough 48) bytes at every position and room, in a frame with 0/2/3/6 zero bytes behind it, on a receiver holding the reassembly the position implies. distinct = (packet, outcome)");
+    rep.set_rule("(1) lemma: for every receiver state of the C08 closure (1 slot: closure; 2 slots: depth 7, thorough closure) x every lemma packet of the 46-packet alphabet (valid packets and those rejected for bad CRC / unknown id / no storage / unknown mandatory extension / unresolvable re-use / oversize) x every tail (1..4 zero bytes, every alphabet packet, FF*8, extension-like bytes, zero label, one byte): decap(q||t) equals decap(q) in outcome, consumed length = |q| and successor snapshot; (2) 2..=6 zero bytes give Padding consuming all in every state; (3) all frames of <= 3 (thorough 4) packets drawn from two real fragment trains continuing across frames plus complete packets and rejected packets, followed by 0..=5 zero bytes, are walked by consumed lengths and compared with stand-alone decapsulation; (4) every packet of the corpus is checked not to read as padding; (5) frames of 4097..70000 bytes, and every frame size 24..=64 with short PDUs, filled greedily by the real encapsulator (encap, and encap_ext for every second PDU; consecutive PDUs share their label, so re-use labels occur) with PDUs around and above the 4095-byte limit (fragments continuing across frames), walked by consumed lengths against a twin receiver fed each packet alone, every PDU delivered once in order; (6) every continuation packet the sender emits for PDUs of 0..=24 (thorough 48) bytes at every position and room, in a frame with 0/2/3/6 zero bytes behind it, on a receiver holding the reassembly the position implies; (7) every start/complete packet the sender emits for short PDUs over 17 boundary values of the protocol type field x labels, in a frame with zero bytes behind it. distinct = (packet, outcome)");
     rep.assume("frames longer than 4 packets follow from the lemma by induction on the position (the successor state after each packet is a state of the closure, where the lemma was checked)");
     let mgr = mgr_std();
     for slots in [1usize, 2] {
@@ -115,7 +115,62 @@ pub fn run(tier: Tier) -> i32 {
     end_to_end(&rep, tier);
     large_frames(&rep, tier);
     continuation_packets(&rep, tier);
+    start_packets(&rep);
     rep.finish(true)
+}
+
+/// (7) every start/complete packet the sender emits for short PDUs over the boundary values of the protocol type field
+/// (around 0x0100, 0x0500, 0x0600, the top) and all label kinds, laid in a frame with zero bytes behind it: whatever the
+/// receiver answers, it answers the same in the frame as alone, consumes the packet's own length unless it reports a
+/// frame-level error alone as well, and the zeros read as padding.
+fn start_packets(rep: &Report) {
+    let mgr = mgr_std();
+    let pts: Vec<u16> = vec![0x0000, 0x0081, 0x00FF, 0x0100, 0x0101, 0x02FF, 0x0400, 0x04FF, 0x0500, 0x0501, 0x05FE, 0x05FF, 0x0600, 0x0601, 0x0800, 0xFFFE, 0xFFFF];
+    pts.par_iter().for_each(|&pt| {
+        let mut acc = Acc::default();
+        for l in [L6A, L3A, Lbl::Bcast] {
+            for p in [0usize, 1, 5, 9, 10, 11, 20] {
+                let pd = pdu(p, 1);
+                for b in [13usize, 16, 4 + l.wire_len() + p, 64] {
+                    let mut enc = Encapsulator::new(DefaultCrc {});
+                    let mut buf = vec![0u8; b];
+                    let out = do_encap(&mut enc, &pd, 3, pt, l, &mut buf);
+                    acc.states += 1;
+                    acc.calls += 1;
+                    let Some(n) = out.len() else { continue };
+                    let pkt = buf[..n.min(b)].to_vec();
+                    if pkt.len() < 2 {
+                        continue;
+                    }
+                    let rx0 = RxS::new(2, 32, &[32, 32]);
+                    let (alone, _) = step_decap(&rx0, &DefaultCrc {}, &mgr, &pkt);
+                    for k in [2usize, 3, 7] {
+                        let mut frame = pkt.clone();
+                        frame.extend(std::iter::repeat(0u8).take(k));
+                        let mut d = rx0.build(DefaultCrc {}, mgr.clone());
+                        let inframe = do_decap(&mut d, &frame);
+                        acc.transitions += 2;
+                        acc.compared += 1;
+                        let mut bad: Option<String> = None;
+                        if inframe != alone {
+                            bad = Some(format!("alone -> {}, followed by {} zero bytes -> {}", alone.brief(), k, inframe.brief()));
+                        } else if inframe.consumed() == Some(pkt.len()) {
+                            let pad = do_decap(&mut d, &frame[pkt.len()..]);
+                            if pad != (DecapOut::Padding { consumed: k }) {
+                                bad = Some(format!("the {} zero bytes behind it -> {}", k, pad.brief()));
+                            }
+                        }
+                        if let Some(why) = bad {
+                            rep.violation(&format!("C10|start-packet|{}|{}", if pt < 0x0100 { "pt<0x100" } else if pt < 0x0600 { "pt-0x100..0x5ff" } else { "pt>=0x600" }, alone.class()), pt as u64, || (format!("encap(pdu_len={}, pt={:#06x}, label={}, buffer={}) -> {:?}, packet {}: {}", p, pt, l.short(), b, out, hex(&pkt), why), json!({"packet": hex(&pkt), "tail": hex(&vec![0u8; k]), "receiver": {"slots": 2, "storage": 32, "buffers": 2}, "call": format!("encap(pdu_len={}, pt={:#06x}, label={}, buffer={})", p, pt, l.short(), b)})));
+                            break;
+                        }
+                    }
+                }
+            }
+        }
+        rep.merge(acc);
+    });
+    rep.part(json!({"part": "start/complete packets over protocol-type boundaries in frames", "protocol_types": pts.iter().map(|p| format!("{:#06x}", p)).collect::<Vec<_>>(), "pdu_lengths": [0, 1, 5, 9, 10, 11, 20]}));
 }
 
 /// (6) every continuation packet the sender can emit for a small PDU (every PDU length, every context position, every
